@@ -1312,7 +1312,7 @@ func (t *tScreen) buildAcsMap() {
 	t.ti.TPuts(&exit, t.ti.ExitAcs)
 	for len(acsstr) >= 2 {
 		srcv := acsstr[0]
-		dstv := string(acsstr[1])
+		dstv := acsstr[1:2] // the glyph byte as it is (string(byte) would be the UTF-8 form of a code point)
 		if r, ok := vtACSNames[srcv]; ok {
 			t.acs[r] = enter.String() + dstv + exit.String()
 		}
